@@ -153,10 +153,9 @@ def units(tier, seed):
 
 def _want(rec, key):
   """group-level filter for replays: the recorded key is the group key or extends it."""
-  if rec.only is None:
-    return True
-  k = core.jsonable(key)
-  return list(rec.only[:len(k)]) == k
+  # always True: a replay re-executes the whole unit (cases of one unit can depend on each other through state
+  # cached inside the library); run.py filters the violations by key
+  return True
 
 
 def _nanfill(a):
